@@ -166,6 +166,26 @@ func applyMutationToModel(w *World, m Mutation) {
 				w.Groups[i].Queue = m.Value
 			}
 		}
+	case "pod-replace":
+		v, _ := strconv.Atoi(m.Value)
+		for gi := range w.Groups {
+			for pi := range w.Groups[gi].Pods {
+				if p := &w.Groups[gi].Pods[pi]; p.Name == m.Target {
+					p.CPU, p.State, p.Node, p.Groups = v, Pending, "", nil
+					p.Incarnation++
+					for ci := range p.Claims {
+						p.Claims[ci].Devices = nil
+					}
+				}
+			}
+		}
+	case "pg-minmember":
+		v, _ := strconv.Atoi(m.Value)
+		for i := range w.Groups {
+			if w.Groups[i].Name == m.Target {
+				w.Groups[i].MinMember = v
+			}
+		}
 	}
 }
 
@@ -176,7 +196,7 @@ var (
 )
 
 // ApplyMutations performs the API changes of a cycle script on the store.
-func ApplyMutations(s *Store, sc *CycleScript) {
+func ApplyMutations(s *Store, sc *CycleScript, after *World) {
 	ctx := context.Background()
 	for _, m := range sc.Mutations {
 		switch m.Kind {
@@ -216,6 +236,25 @@ func ApplyMutations(s *Store, sc *CycleScript) {
 				n.Spec.Resources.GPU.OverQuotaWeight = f
 			}
 			_ = s.Kai.Tracker().Update(queueGVR, n, "")
+		case "pod-replace":
+			// the workload controller deletes the pod object and creates it again under the same name (new UID) with
+			// another template; pods with DRA claims are left alone (their claims are owned by the old object)
+			if after == nil {
+				continue
+			}
+			for gi := range after.Groups {
+				g := &after.Groups[gi]
+				for pi := range g.Pods {
+					p := &g.Pods[pi]
+					if p.Name != m.Target || len(p.Claims) > 0 {
+						continue
+					}
+					_ = s.Kube.Tracker().Delete(podGVR, Namespace, p.Name)
+					_ = s.Kai.SchedulingV1alpha2().BindRequests(Namespace).Delete(ctx, p.Name, metav1.DeleteOptions{})
+					delete(s.linger, p.Name)
+					_ = s.Kube.Tracker().Add(BuildPod(g, p, s.Now))
+				}
+			}
 		case "pod-finish":
 			// the containers of a running pod exit successfully (only pods the scheduler has not touched meanwhile)
 			cur, err := s.Kube.CoreV1().Pods(Namespace).Get(ctx, m.Target, metav1.GetOptions{})
@@ -225,13 +264,18 @@ func ApplyMutations(s *Store, sc *CycleScript) {
 			n := cur.DeepCopy()
 			n.Status.Phase = v1.PodSucceeded
 			_ = s.Kube.Tracker().Update(podGVR, n, Namespace)
-		case "pg-queue":
+		case "pg-queue", "pg-minmember":
 			cur, err := s.Kai.SchedulingV2alpha2().PodGroups(Namespace).Get(ctx, m.Target, metav1.GetOptions{})
 			if err != nil {
 				continue
 			}
 			n := cur.DeepCopy()
-			n.Spec.Queue = m.Value
+			if m.Kind == "pg-minmember" {
+				v, _ := strconv.Atoi(m.Value)
+				n.Spec.MinMember = int32(v)
+			} else {
+				n.Spec.Queue = m.Value
+			}
 			_ = s.Kai.Tracker().Update(podGroupGVR, n, Namespace)
 		case "node-label", "node-unschedulable", "node-cpu", "node-gpus":
 			cur, err := s.Kube.CoreV1().Nodes().Get(ctx, m.Target, metav1.GetOptions{})
